@@ -72,6 +72,10 @@ func c15Spec(shape, lives string) kit.Spec {
 		c := reg(2, "D2")
 		c.Name = "k"
 		return kit.Spec{Regs: []kit.Reg{a, reg(1, "D1"), c}}
+	case "iface":
+		// the dependency is declared as an interface type: a nil result is a nil interface
+		p := kit.Reg{ID: 1, Life: l(1), Err: true, Outs: []kit.Out{{T: "IA", Conc: "D1"}}, Deps: []kit.Dep{{T: "D2"}}}
+		return kit.Spec{Regs: []kit.Reg{reg(0, "D0", kit.Dep{T: "IA"}), p, reg(2, "D2")}}
 	case "multi":
 		m := kit.Reg{ID: 1, Life: l(1), Err: true, Outs: []kit.Out{{T: "D1"}, {T: "D2"}}, Deps: []kit.Dep{{T: "D3"}}}
 		return kit.Spec{Regs: []kit.Reg{reg(0, "D0", kit.Dep{T: "D2"}, kit.Dep{T: "D1"}), m, reg(3, "D3")}}
@@ -191,8 +195,13 @@ func c15Run(c c15Case) (*Env, []Finding) {
 		}
 		out = append(out, f)
 	}
-	if c.Kind != "nil" {
-		out = append(out, e.WiringOracle(m)...)
+	for _, f := range e.WiringOracle(m) {
+		// a typed nil pointer returned by the faulted constructor is a legitimate argument;
+		// a nil INTERFACE is not an instance and must never be handed to a consumer
+		if c.Kind == "nil" && !strings.Contains(f.Detail, "(IA") && !strings.Contains(f.Detail, "IA)") && !strings.Contains(f.Detail, ",IA") {
+			continue
+		}
+		out = append(out, f)
 	}
 	for _, f := range e.DisposalOracle(true) {
 		out = append(out, f)
@@ -310,7 +319,16 @@ func c15Inputs(r *mc.Report) {
 		}
 		add("provider.Get("+tn+")", func() { _, p, _ := mk(); p.Get(tv) })
 		add("scope.Get("+tn+")", func() { _, _, s := mk(); s.Get(tv) })
-		add("closed provider.Get("+tn+")", func() { _, p, s := mk(); p.Close(); p.Get(tv); s.Get(tv); p.GetKeyed(tv, "k"); p.GetGroup(tv, "g"); p.CreateScope(nil); s.CreateScope(nil) })
+		add("closed provider.Get("+tn+")", func() {
+			_, p, s := mk()
+			p.Close()
+			p.Get(tv)
+			s.Get(tv)
+			p.GetKeyed(tv, "k")
+			p.GetGroup(tv, "g")
+			p.CreateScope(nil)
+			s.CreateScope(nil)
+		})
 		for _, g := range groups {
 			g := g
 			add("GetGroup("+tn+","+g+")", func() { _, p, s := mk(); p.GetGroup(tv, g); s.GetGroup(tv, g) })
@@ -332,9 +350,22 @@ func c15Inputs(r *mc.Report) {
 		c, _, _ := mk()
 		c.BuildWithContext(ctx)
 	})
-	add("BuildWithOptions(nil)", func() { godi.NewCollection().BuildWithOptions(nil); godi.NewCollection().BuildWithOptions(&godi.ProviderOptions{}) })
-	add("AddModules(nil...)", func() { c := godi.NewCollection(); c.AddModules(); c.AddModules(nil, nil); c.AddModules(godi.NewModule("")); c.AddModules(godi.NewModule("x", nil, godi.NewModule("y", nil))) })
-	add("FromContext", func() { godi.FromContext(nilCtx); godi.FromContext(context.Background()); godi.FromContext(context.WithValue(context.Background(), "k", 1)) })
+	add("BuildWithOptions(nil)", func() {
+		godi.NewCollection().BuildWithOptions(nil)
+		godi.NewCollection().BuildWithOptions(&godi.ProviderOptions{})
+	})
+	add("AddModules(nil...)", func() {
+		c := godi.NewCollection()
+		c.AddModules()
+		c.AddModules(nil, nil)
+		c.AddModules(godi.NewModule(""))
+		c.AddModules(godi.NewModule("x", nil, godi.NewModule("y", nil)))
+	})
+	add("FromContext", func() {
+		godi.FromContext(nilCtx)
+		godi.FromContext(context.Background())
+		godi.FromContext(context.WithValue(context.Background(), "k", 1))
+	})
 	add("Resolve helpers nil provider", func() {
 		godi.Resolve[*thing](nil)
 		godi.ResolveKeyed[*thing](nil, "k")
@@ -346,7 +377,17 @@ func c15Inputs(r *mc.Report) {
 		godi.Resolve[int](p)
 		godi.ResolveGroup[iface](p, "g")
 	})
-	add("double close / use after close", func() { _, p, s := mk(); s.Close(); s.Close(); p.Close(); p.Close(); s.Close(); p.ID(); s.Provider(); s.Context() })
+	add("double close / use after close", func() {
+		_, p, s := mk()
+		s.Close()
+		s.Close()
+		p.Close()
+		p.Close()
+		s.Close()
+		p.ID()
+		s.Provider()
+		s.Context()
+	})
 	add("empty collection", func() { p, err := godi.NewCollection().Build(); _ = err; p.Get(tThing); p.Close() })
 	add("instance values of odd kinds", func() {
 		c := godi.NewCollection()
@@ -551,13 +592,13 @@ func firstLineErr(e error) string {
 
 func init() {
 	mc.Register(&mc.Check{
-		Prop: "C15",
-		Rule: "fault sequences: 6 dependency shapes (chain, diamond, group consumer, In-struct with key/optional, optional-but-registered dependencies, two-output producer) x 5 lifetime patterns x every registration x invocation 1..3 x {returns error, returns nil, panics with string / error / struct / nil}; each execution: Build, scope, three attempts at the root service, a second scope, Close; oracle: no panic escapes, an error fault is reachable with errors.As (same pointer), a panic fault is a ConstructorPanicError carrying the value, retries without a pending fault succeed, lifetime / wiring / disposal oracles hold (nothing half-built is cached, nothing successfully built is rebuilt or leaked). API inputs: ~1,000 calls of every exported entry point with nil / typed-nil / zero / unregistered / mismatched / invalid arguments must not panic; Must* helpers panic iff the plain call errs. Error classes: 30 routes through Build / resolution / registration / module wrappers must be recognisable with errors.Is/As. distinct = canonical observation strings.",
-		Assume: []string{"keys are hashable (the property's precondition)", "a constructor returning a typed nil pointer is accepted as an instance: only 'no panic, consistent retry' is demanded there"},
+		Prop:        "C15",
+		Rule:        "fault sequences: 7 dependency shapes (chain, diamond, group consumer, In-struct with key/optional, optional-but-registered dependencies, two-output producer, interface-typed producer) x 5 lifetime patterns x every registration x invocation 1..3 x {returns error, returns nil, panics with string / error / struct / nil}; each execution: Build, scope, three attempts at the root service, a second scope, Close; oracle: no panic escapes, an error fault is reachable with errors.As (same pointer), a panic fault is a ConstructorPanicError carrying the value, retries without a pending fault succeed, lifetime / wiring / disposal oracles hold (nothing half-built is cached, nothing successfully built is rebuilt or leaked). API inputs: ~1,000 calls of every exported entry point with nil / typed-nil / zero / unregistered / mismatched / invalid arguments must not panic; Must* helpers panic iff the plain call errs. Error classes: 30 routes through Build / resolution / registration / module wrappers must be recognisable with errors.Is/As. distinct = canonical observation strings.",
+		Assume:      []string{"keys are hashable (the property's precondition)", "a constructor returning a typed nil pointer is accepted as an instance: only 'no panic, consistent retry' is demanded there"},
 		MinOutcomes: 10,
 		Jobs: func(tier string) []mc.Job {
 			jobs := []mc.Job{{Name: "c15-inputs", Weight: 5, Run: c15Inputs}, {Name: "c15-classes", Run: c15Classes}}
-			for _, sh := range []string{"chain", "diamond", "group", "instruct", "optional", "multi"} {
+			for _, sh := range []string{"chain", "diamond", "group", "instruct", "optional", "multi", "iface"} {
 				sh := sh
 				jobs = append(jobs, mc.Job{Name: "c15-faults/" + sh, Weight: 3, Run: func(r *mc.Report) { c15Faults(r, sh) }})
 			}
